@@ -1356,9 +1356,7 @@ func execC14Expiry(in sx.V) sx.V {
 	}
 	cfg := wallet.MessageConfig{Seqno: uint32(l[5].U64()), V5MsgType: wallet.V5MsgTypeSignedExternal}
 	explicit := optZfrom(l[4])
-	if explicit != nil {
-		cfg.ValidUntil = time.Unix(*explicit, 0)
-	}
+	cfg.ValidUntil = c14TimeRep(explicit, c14RepOf(l, 9)) // c14_r8.go: the representation of the (unset / set) expiry
 	var ss []wallet.Sendable
 	for _, e := range l[8].List {
 		ss = append(ss, sendableFromSx(e).toSendable())
@@ -1409,7 +1407,11 @@ func execC14Entry(in sx.V) sx.V {
 			raws = append(raws, m)
 		}
 	}
-	seqno, valid := uint32(l[4].U64()), time.Unix(l[5].Int.Int64(), 0)
+	validZ := l[5].Int.Int64()
+	seqno, valid := uint32(l[4].U64()), c14TimeRep(&validZ, c14RepOf(l, 8))
+	if validZ == -62135596800 && len(l) > 8 {
+		valid = c14ZeroRep(c14RepOf(l, 8))
+	}
 	rand.Seed(1)
 	ctx := context.Background()
 	var root *boc.Cell
@@ -1827,6 +1829,7 @@ func genC14(c *Ctx) {
 			}
 		}
 	}
+	genC14R8(c) // 5d'. the expiry in every representation of the same instant (c14_r8.go)
 	// 5e. zero is a value, not "unset": the same Sendables through Send, SendV2, RawSend, RawSendV2 and CreateMessageBody;
 	// explicit zeros everywhere (mode 0, amount 0, bounce false, workchain 0, sub-wallet 0, network id 0, seqno 0,
 	// valid_until 0) and random mixes; the carried (cell, mode) lists must equal the request and each other
